@@ -11,6 +11,12 @@
 (*           n, c  : uncompressed bytes produced, bytes of the chunk in the file (header included)]         *)
 EXTENDS Naturals, Sequences, FiniteSets
 
+(* The properties byte of an LZMA chunk (control >= 0xC0): (pb * 5 + lp) * 9 + lc with lc + lp <= 4 (LZMA2 only) *)
+PropsLc(b) == b % 9
+PropsLp(b) == (b \div 9) % 5
+PropsPb(b) == b \div 45
+PropsByteValid(b) == b <= (4 * 5 + 4) * 9 + 8 /\ PropsLc(b) + PropsLp(b) <= 4
+
 (* ------------------------------------------------------------------------ *)
 (* OPERATIONAL: lzma2_decode().  st = [needProps, needDict, ret, out, used]  *)
 (* ret: "run" | "STREAM_END" | "DATA_ERROR" | "DATA_OR_BUF"                   *)
